@@ -276,3 +276,42 @@ def run(repo: Repo, rep: Report, tier: str) -> None:
     from .shared import borrow as _borrow5b
     _borrow5b(repo, rep, "C01", "C01-R4", "C05-R10", "the latch's conditions read set, reset and feedback wherever they arrive: a decider operand without a recorded wire selection "
               "reads both colours", select=lambda o: "defaults to both colours" in o.construct, floor=4)
+
+    # ---------------- R11 --------------------------------------------------------------
+    rep.rule("C05-R11", "a threshold written with the constant first means the same threshold: wherever the lowering swaps the operands of a comparison and maps its operator through a "
+             "table, the table is the mirror table (< <-> >, <= <-> >=, == and != unchanged) — the negation table (< -> >=) moves the boundary by one")
+    from ..sides import MIRROR_PAIRS as _MP11
+    n11 = 0
+    for f11 in repo.all_funcs():
+        if not any(seg in f11.module.name + "." for seg in (".lowering.", ".layout.", ".emission.", ".semantic.")):
+            continue
+        for blk in walk_local(f11.node):
+            if not isinstance(blk, ast.If):
+                continue
+            swaps = [x for x in blk.body if isinstance(x, ast.Assign) and isinstance(x.targets[0], ast.Tuple) and isinstance(x.value, ast.Tuple) and len(x.targets[0].elts) == 2
+                     and [norm(e) for e in x.targets[0].elts] == [norm(e) for e in reversed(x.value.elts)]]
+            if not swaps:
+                continue
+            for x in blk.body:
+                for c in ast.walk(x):
+                    tname = None
+                    if isinstance(c, ast.Call) and call_name(c) == "get" and isinstance(c.func, ast.Attribute) and isinstance(c.func.value, ast.Name) and c.args:
+                        tname = c.func.value.id
+                    elif isinstance(c, ast.Subscript) and isinstance(c.value, ast.Name) and isinstance(c.ctx, ast.Load) and c.value.id.isupper():
+                        tname = c.value.id
+                    if tname is None:
+                        continue
+                    try:
+                        table = module_const(repo, f11.module, tname)
+                    except Exception:  # noqa: BLE001
+                        continue
+                    if not (isinstance(table, dict) and table and all(isinstance(k, str) and isinstance(v, str) for k, v in table.items())
+                            and set(table) & set(_MP11)):
+                        continue
+                    n11 += 1
+                    wrong = {k: v for k, v in table.items() if (k in _MP11 and v != _MP11[k]) or (k not in _MP11 and v != k)}
+                    rep.check(not wrong, "C05-R11", f"{f11.short}: operator table `{tname}` used with swapped operands is the mirror table",
+                              f"{table}" if not wrong else f"entries {wrong} are not mirror images: `20 > battery` becomes `battery {table.get('>')} 20`; the set/reset threshold is off by one at the boundary", f11.loc(swaps[0]))
+    rep.analysed["C05-R11:operand swaps with an operator table"] = n11
+    if n11 == 0:
+        rep.ok("C05-R11", "no comparison is re-oriented through an operator table in the lowering", "0 swap sites (constant-first thresholds are not inlined)", "dsl_compiler/src/lowering/memory_lowerer.py:1", nontrivial=False)
